@@ -23,6 +23,7 @@ type frame struct {
 	info   *fnInfo
 	locals []Value
 	bind   []Value
+	defers []func()
 }
 
 func (st *State) info(fn *ssa.Function) *fnInfo {
@@ -255,7 +256,27 @@ func (st *State) exec(fr *frame) Value {
 				st.mapUpdate(st.get(fr, x.Map).(MapV), st.get(fr, x.Key), st.get(fr, x.Value))
 			case *ssa.DebugRef:
 			case *ssa.RunDefers:
-			case *ssa.Defer, *ssa.Go, *ssa.Send, *ssa.Select:
+				for i := len(fr.defers) - 1; i >= 0; i-- {
+					fr.defers[i]()
+				}
+				fr.defers = nil
+			case *ssa.Defer:
+				// the callee and its arguments are evaluated now, the call runs at RunDefers (no recover support)
+				call := x.Call
+				args := make([]Value, len(call.Args))
+				for i, a := range call.Args {
+					args[i] = st.get(fr, a)
+				}
+				var recv Value
+				var fv Value
+				if call.IsInvoke() {
+					recv = st.get(fr, call.Value)
+				} else {
+					fv = st.get(fr, call.Value)
+				}
+				cc := call
+				fr.defers = append(fr.defers, func() { st.deferredCall(&cc, recv, fv, args) })
+			case *ssa.Go, *ssa.Send, *ssa.Select:
 				panic(engineGap(fmt.Sprintf("unsupported instruction %T in %s", ins, fr.fn)))
 			case ssa.Value:
 				st.set(fr, x, st.evalInstr(fr, x))
@@ -1151,4 +1172,31 @@ func (st *State) isLibraryFn(fn *ssa.Function) bool {
 	}
 	st.libFn[fn] = r
 	return r
+}
+
+// deferredCall runs a call recorded by a defer statement.
+func (st *State) deferredCall(c *ssa.CallCommon, recv, fv Value, args []Value) {
+	if c.IsInvoke() {
+		r := recv.(IfaceV)
+		if r.t == nil {
+			panic(goPanic{msg: "runtime error: invalid memory address or nil pointer dereference (nil interface)"})
+		}
+		fn := st.e.prog.LookupMethod(r.t, c.Method.Pkg(), c.Method.Name())
+		if fn == nil {
+			panic(engineGap("deferred method not found: " + c.Method.Name()))
+		}
+		st.callFunction(fn, append([]Value{r.v}, args...), nil)
+		return
+	}
+	switch f := fv.(type) {
+	case ClosureV:
+		if f.fn == nil {
+			panic(goPanic{msg: "runtime error: call of nil function"})
+		}
+		st.callFunction(f.fn, args, f.bind)
+	case *ssa.Builtin:
+		st.builtin(f, args, c)
+	default:
+		panic(engineGap("deferred call of unsupported function value"))
+	}
 }
